@@ -18,7 +18,8 @@ fn len(disconnect: &Disconnect, properties: &Option<DisconnectProperties>) -> us
         let properties_len_len = len_len(properties_len);
         length += properties_len_len + properties_len;
     } else {
-        length += 1;
+        // Disconnect Reason Code + zero property length (write() emits both)
+        length += 2;
     }
 
     length
@@ -69,7 +70,8 @@ pub fn write(
 
     let length = len(disconnect, properties);
 
-    if length == 2 {
+    // short form: reason code and properties omitted for a normal disconnection
+    if disconnect.reason_code == DisconnectReasonCode::NormalDisconnection && properties.is_none() {
         buffer.put_u8(0x00);
         return Ok(length);
     }
